@@ -110,9 +110,9 @@ Print Assumptions C23_v2_expired_rejected.
 
 (* (Format 1, the weaker statement) An accepted format-1 string consists of exactly three
    pipe-free parts whose third part is the valid MAC, under the reader's (string) secret, of
-   the UNDELIMITED concatenation name ++ p0 ++ p1; p1 parses as an integer inside
-   [now - max_age, now + 31 days] without a leading zero, the result is b64decode p0, and
-   min_version <= 1.  (Nothing stronger holds: see the replay theorem below.) *)
+   the UNDELIMITED concatenation name ++ p0 ++ p1; the timestamp field p1 is the CANONICAL
+   decimal of an integer t >= 1 (digits only, no sign/space/underscore/leading zero: bf2e153)
+   inside [now - max_age, now + 31 days], the result is b64decode p0, and min_version <= 1. *)
 Theorem C23_v1_soundness_weaker :
   forall mac1 mac2, mac_shape mac1 -> mac_shape mac2 ->
   forall s name x maxage now minv v,
@@ -120,10 +120,33 @@ Theorem C23_v1_soundness_weaker :
     get_version x = 1%Z ->
     exists k p0 p1 t,
       s = SStr k /\ x = p0 ++ 124%N :: p1 ++ 124%N :: mac1 k (name ++ p0 ++ p1) /\
-      py_int p1 = Some t /\ (now - maxage <= t <= now + 31 * 86400)%Z /\
-      starts_with_zero p1 = false /\ b64decode p0 = Some v /\ (minv <= 1)%Z.
+      Forall (fun c => c <> 124%N) p0 /\
+      p1 = dec_Z t /\ (1 <= t)%Z /\ (now - maxage <= t <= now + 31 * 86400)%Z /\
+      b64decode p0 = Some v /\ (minv <= 1)%Z.
 Proof. exact soundness_v1. Qed.
 Print Assumptions C23_v1_soundness_weaker.
+
+(* (Format 1, same name) If moreover every MACed text found in the string was issued for THIS
+   name (unforgeability premise: name ++ p0 ++ p1 = name ++ b64encode v0 ++ str(t0) for an
+   issued (v0, t0 >= 1)), then either the string IS create(secret, name, v0, version 1, t0) and
+   the original value is returned, or digits were shifted between payload and timestamp and the
+   accepted timestamp t differs from t0 by more than a factor of two (2*t0 < t or 2*t < t0) --
+   so with now + 31 days < 2*t0 and t0 <= 2*(now - max_age), e.g. any realistic clock, every
+   modification is rejected.  What remains possible in format 1: these digit shifts under
+   absurd clocks, and re-splitting between name and payload (next-but-three theorem). *)
+Theorem C23_v1_soundness_same_name :
+  forall mac1 mac2, mac_shape mac1 -> mac_shape mac2 ->
+  forall s name x maxage now minv v,
+    decode mac1 mac2 s name x maxage now minv = Ok (Some v) ->
+    get_version x = 1%Z ->
+    (forall k p0 p1, x = p0 ++ 124%N :: p1 ++ 124%N :: mac1 k (name ++ p0 ++ p1) ->
+                     exists v0 t0, Forall isbyte v0 /\ (1 <= t0)%Z /\ p0 ++ p1 = b64encode v0 ++ dec_Z t0) ->
+    exists v0 t0 t,
+      Forall isbyte v0 /\ (1 <= t0)%Z /\ (now - maxage <= t <= now + 31 * 86400)%Z /\ (minv <= 1)%Z /\
+      ((create mac1 mac2 s name v0 1 t0 None = Ok x /\ v = v0 /\ t = t0)
+       \/ (2 * t0 < t)%Z \/ (2 * t < t0)%Z).
+Proof. exact soundness_v1_same_name. Qed.
+Print Assumptions C23_v1_soundness_same_name.
 
 (* A key-version dictionary never accepts (and never crashes on) a format-1-shaped string;
    this was the AssertionError fixed in 5737b77. *)
